@@ -1223,6 +1223,52 @@ func (r *c14Run) randomHistory(hist int) {
 	r.emit(&c14Op{Op: "end"})
 }
 
+// identicalPayload: two DISTINCT transactions with byte-identical payloads (same payload hash). Each of them must get its
+// own payload event, on the Add path and on the WritePayload path, in either order, and duplicates of a payload message
+// must not call anybody again - also across a restart.
+func (r *c14Run) identicalPayload(hist int) {
+	h := r.h
+	a, b := -1, -1
+	for i := range h.pool {
+		for j := i + 1; j < len(h.pool); j++ {
+			if h.pool[i].attr.PNum == h.pool[j].attr.PNum {
+				a, b = i, j
+			}
+		}
+	}
+	if a < 0 {
+		return
+	}
+	scripts := [][]*c14Op{
+		// both payloads arrive later
+		{{Op: "add", Ref: a}, {Op: "add", Ref: b}, {Op: "wp", Ref: a}, {Op: "wp", Ref: b}, {Op: "wp", Ref: b}, {Op: "wp", Ref: a}},
+		// the first transaction brings its payload, the payload of the second arrives later
+		{{Op: "add", Ref: a, Payload: true}, {Op: "add", Ref: b}, {Op: "wp", Ref: b}, {Op: "wp", Ref: b}},
+		{{Op: "add", Ref: b, Payload: true}, {Op: "add", Ref: a}, {Op: "wp", Ref: a}, {Op: "crash"}, {Op: "restart", Order: []int{0, 1, 2, 3, 4}}, {Op: "wp", Ref: a}},
+		// both arrive with their payload (Add path); a payload message for one of them afterwards
+		{{Op: "add", Ref: a, Payload: true}, {Op: "add", Ref: b, Payload: true}, {Op: "wp", Ref: b}, {Op: "wp", Ref: a}},
+		// the payload arrives, the node stops before the notification, restart, the duplicate arrives
+		{{Op: "add", Ref: a}, {Op: "add", Ref: b}, {Op: "wp", Ref: a}, {Op: "wp", Ref: b, Drop: true}, {Op: "restart", Order: []int{4, 3, 2, 1, 0}}, {Op: "wp", Ref: b}},
+	}
+	for si, sc := range scripts {
+		for v := 0; v < 2; v++ {
+			var beh []c14Beh
+			if v == 1 {
+				beh = r.genBeh(5, false)
+			}
+			r.emit(&c14Op{Op: "reset", NSubs: 5, Hist: hist*100 + si*2 + v, Kind: "identical-payload", Beh: beh})
+			for _, op0 := range sc {
+				op := *op0
+				if c14Stopped(r.emit(&op)) && op.Op != "restart" && !op.Drop {
+					r.restart()
+				}
+			}
+			r.drain(600)
+			r.emit(&c14Op{Op: "end"})
+		}
+	}
+}
+
 // enumerated stop positions of one short fault-free base history
 func (r *c14Run) enumHistory(hist int, maxVariants int) {
 	h := r.h
@@ -1433,6 +1479,7 @@ func TestVerifC14(t *testing.T) {
 			}
 		}
 	}
+	r.identicalPayload(7)
 	for i := 0; i < nBases; i++ {
 		r.enumHistory(i+1, maxVar)
 	}
